@@ -17,10 +17,25 @@ from ._higherorder import (
 from ._impl import Matcher, Mismatch
 
 
+def _sorted_keys(keys):
+    """Sort keys; keys that cannot be ordered against each other (1 and 'a')
+    are ordered by their repr instead.
+    """
+    keys = list(keys)
+    try:
+        return sorted(keys)
+    except TypeError:
+        return sorted(keys, key=repr)
+
+
+def _sorted_items(mapping):
+    return [(key, mapping[key]) for key in _sorted_keys(mapping)]
+
+
 def LabelledMismatches(mismatches, details=None):
     """A collection of mismatches, each labelled."""
     return MismatchesAll(
-        [PrefixedMismatch(k, v) for (k, v) in sorted(mismatches.items())], wrap=False
+        [PrefixedMismatch(k, v) for (k, v) in _sorted_items(mismatches)], wrap=False
     )
 
 
@@ -57,7 +72,7 @@ class DictMismatches(Mismatch):
         lines.extend(
             [
                 f"  {key!r}: {mismatch.describe()},"
-                for (key, mismatch) in sorted(self.mismatches.items())
+                for (key, mismatch) in _sorted_items(self.mismatches)
             ]
         )
         lines.append("}")
@@ -254,8 +269,8 @@ class KeysEqual(Matcher):
     def match(self, matchee):
         from ._basic import _BinaryMismatch, Equals
 
-        expected = sorted(self.expected)
-        matched = Equals(expected).match(sorted(matchee.keys()))
+        expected = _sorted_keys(self.expected)
+        matched = Equals(expected).match(_sorted_keys(matchee.keys()))
         if matched:
             return AnnotatedMismatch(
                 "Keys not equal", _BinaryMismatch(expected, "does not match", matchee)
